@@ -202,7 +202,7 @@ func convResources(c *hx.Ctx) {
 	}
 
 	// random combinations
-	n := c.Pick(250, 6000)
+	n := c.Pick(500, 6000)
 	for i := 0; i < n; i++ {
 		addN(genNRIResources(r), "random")
 		addO(genOCIResources(r), "random")
@@ -267,7 +267,7 @@ func convMounts(c *hx.Ctx) {
 	for _, x := range singles(&rspec.Mount{}) {
 		addO([]rspec.Mount{*x.(*rspec.Mount)})
 	}
-	n := c.Pick(150, 3000)
+	n := c.Pick(300, 3000)
 	for i := 0; i < n; i++ {
 		var q *string
 		if r.Intn(2) == 0 {
@@ -331,7 +331,7 @@ func convDevices(c *hx.Ctx) {
 	for _, x := range singles(&rspec.LinuxDevice{}) {
 		addO([]rspec.LinuxDevice{*x.(*rspec.LinuxDevice)})
 	}
-	n := c.Pick(150, 3000)
+	n := c.Pick(300, 3000)
 	for i := 0; i < n; i++ {
 		addN(genNRIDevice(r))
 		var in []rspec.LinuxDevice
@@ -438,7 +438,7 @@ func convHooks(c *hx.Ctx) {
 		StartContainer: []*api.Hook{six(4)}, Poststart: []*api.Hook{six(5)}, Poststop: []*api.Hook{six(6)}})
 	addO(hooksToOCI(&api.Hooks{Prestart: []*api.Hook{six(1)}, CreateRuntime: []*api.Hook{six(2)}, CreateContainer: []*api.Hook{six(3)},
 		StartContainer: []*api.Hook{six(4)}, Poststart: []*api.Hook{six(5)}, Poststop: []*api.Hook{six(6)}}))
-	n := c.Pick(120, 2500)
+	n := c.Pick(250, 2500)
 	for i := 0; i < n; i++ {
 		addN(genNRIHooks(r))
 		addO(genOCIHooks(r))
@@ -517,7 +517,7 @@ func convEnv(c *hx.Ctx) {
 	}
 	addO(nil)
 	addO([]string{})
-	n := c.Pick(200, 4000)
+	n := c.Pick(400, 4000)
 	for i := 0; i < n; i++ {
 		addN(sh, genKVs(r, true))
 		addO(genEnvStrings(r))
